@@ -632,6 +632,9 @@ row('CODE.INSERT', ['C08'], takes=[('int', 1)], touches=['code'], clauses=[
     ('fired.code.shape', 'S1.code.len() == S0.code.len() && (S0.code.len() >= 1 ==> drop_n(S1.code, 1) =~= drop_n(S0.code, 1))'),
     # "inserting the second item into the first at the indexed point": a following EXTRACT at the same index yields the inserted item
     ('fired.extract-after-insert', '(S0.int.len() >= 1 && S0.code.len() >= 2 && 0 <= %s < %s(%s)) ==> %s(top(S1.code, 0), %s as nat) == Some(top(S0.code, 1))' % (_i, PTS, _c, NTH, _i)),
+    # the property quantifies over ALL indices ("the indexing is computed as in CODE.EXTRACT", i.e. modulo the number of points): for an index outside
+    # 0..points the following EXTRACT normalises it, but INSERT does nothing -- pinned by the repository's test code_insert_does_nothing_when_index_too_big
+    ('fired.extract-after-insert.out-of-range-index', '(S0.int.len() >= 1 && S0.code.len() >= 2 && !(0 <= %s < %s(%s))) ==> %s(top(S1.code, 0), ((%s as int) %% (%s(top(S1.code, 0)) as int)) as nat) == Some(top(S0.code, 1))' % (_i, PTS, _c, NTH, _i, PTS)),
     # an index beyond the points of the item leaves it as it is, as far as sizes go (the repository's test pins "does nothing when index too big")
     ('fired.beyond-keeps-size', '(S0.int.len() >= 1 && S0.code.len() >= 2 && %s >= %s(%s)) ==> %s(top(S1.code, 0)) == %s(%s)' % (_i, PTS, _c, PTS, PTS, _c)),
     ('{C08,C10}unfired.code', '!(S0.int.len() >= 1 && S0.code.len() >= 2) ==> S1.code == S0.code')])
@@ -1011,7 +1014,6 @@ _lim = 'S0.config.max_points_in_program as int'
 def add_points_bound(name, fired, result, operands):
     alts = ' || '.join(['%s(%s) <= %s' % (PTS, result, _lim)] + ['%s(%s) <= %s(%s)' % (PTS, result, PTS, o) for o in operands])
     ROWS[name].clauses.append(('{C15}bound.points', '(%s) ==> (%s)' % (fired, alts)))
-    if 'C15' not in ROWS[name].props: ROWS[name].props.append('C15')
 for _nm in ['CODE.LIST', 'CODE.APPEND', 'CODE.CONS', 'CODE.INSERT']:
     add_points_bound(_nm, 'S0.code.len() >= 2' + (' && S0.int.len() >= 1' if _nm == 'CODE.INSERT' else ''), 'top(S1.code, 0)', ['top(S0.code, 0)', 'top(S0.code, 1)'])
 add_points_bound('CODE.SUBST', 'S0.code.len() >= 3', 'top(S1.code, 0)', ['top(S0.code, 0)', 'top(S0.code, 1)', 'top(S0.code, 2)'])
